@@ -72,28 +72,32 @@ def json_obs(obj):
     return out
 
 
-def observe(obj, ver, with_json=True):
-    sc = obj.scores()
-    o = {
-        "scores": [tenth(x) for x in sc],
-        "reprs": [repr(x) for x in sc],
-        "sev": [esc(x) for x in obj.severities()],
-        "clean": esc(obj.clean_vector()),
-        "rh": esc(obj.rh_vector()),
-        "vector": esc(obj.vector),
-    }
+def observe(obj, ver, with_json=True, order=None):
+    """Everything observable about an object.  The accessors are called in a seeded random order (order = seed) when one is
+    given: results must not depend on it (C18), and an order-dependent defect then shows in whichever check looks at the
+    affected output."""
+    o = {"vector": esc(obj.vector), "clean_np": "-", "tv": "-", "ev": "-"}
+
+    def scores():
+        sc = obj.scores()
+        o["scores"] = [tenth(x) for x in sc]
+        o["reprs"] = [repr(x) for x in sc]
+    calls = [scores,
+             lambda: o.__setitem__("sev", [esc(x) for x in obj.severities()]),
+             lambda: o.__setitem__("clean", esc(obj.clean_vector())),
+             lambda: o.__setitem__("rh", esc(obj.rh_vector()))]
     if ver != "2":
-        o["clean_np"] = esc(obj.clean_vector(output_prefix=False))
-    else:
-        o["clean_np"] = "-"
+        calls.append(lambda: o.__setitem__("clean_np", esc(obj.clean_vector(output_prefix=False))))
     if ver != "4":
-        o["tv"] = esc(obj.temporal_vector())
-        o["ev"] = esc(obj.environmental_vector())
-    else:
-        o["tv"] = "-"
-        o["ev"] = "-"
+        calls.append(lambda: o.__setitem__("tv", esc(obj.temporal_vector())))
+        calls.append(lambda: o.__setitem__("ev", esc(obj.environmental_vector())))
     if with_json:
-        o["json"] = json_obs(obj)
+        calls.append(lambda: o.__setitem__("json", json_obs(obj)))
+    if order is not None:
+        import random
+        random.Random(order).shuffle(calls)
+    for c in calls:
+        c()
     return o
 
 
